@@ -53,7 +53,7 @@ def run(ctx):
     ctx.assumptions += ['mode-N bounds 1e-10 (relative to max(1, ||v||))',
                         'local steps observed by wrapping mps.local_orthonormalize_* / mpo.local_orthonormalize_*']
     canon_models(ctx)
-    cases = [ctx.replay['replay']['case']] if ctx.replay is not None else [gen_case(rng, ctx.quick) for _ in range(ctx.pick(700, 15000))]
+    cases = [ctx.replay['replay']['case']] if ctx.replay is not None else [gen_case(rng, ctx.quick) for _ in range(ctx.pick(1500, 15000))]
     traces = []
     for c in cases:
         try:
